@@ -18,8 +18,11 @@ RULE = ("cases = one data frame (1-4 group-value combinations in 1-3 group colum
         "finite scores tied with the thresholds; arbitrary frame index) x 5 queries (quick) of metric (all 29 ConfusionMatrix "
         "metric names) x threshold scalar/list/tuple/ndarray/0-d x 4 configurations x normalize None/by_overall/by_min x "
         "bootstrap off / quantile,bc,bca with identity, leave-one-out and built-in replacement sampling (None/by_label/"
-        "by_group, seeded); plus invalid-input cases; non-trivial = >= 2 groups, or tricky values, or a normalised / "
-        "bootstrapped query")
+        "by_group, seeded); plus invalid-input cases; plus (every 12th case) kind 'script': ONE showbias(..., bootstrap_ci=True) "
+        "call on a small frame (1-4 groups in 1-2 columns, grid scores, occasionally >= 100 rows per class) with a built-in sampler "
+        "(replacement / single_pass / dynamic x None / by_label / by_group), nb_samples 3-8, quantile / bc / bca, None / by_overall / "
+        "by_min, under the scripted RNG with realistic or adversarial in-support answers; non-trivial = >= 2 groups, or tricky "
+        "values, or a normalised / bootstrapped query")
 EXPLANATION = ("Theorems C18_* prove for ALL data rows that the model's frame has exactly the sorted distinct keys as rows, that "
                "each entry is the metric of the matrix counted from the rows carrying that key (C01), that the group matrices add "
                "up to the overall matrix, the by_overall / by_min algebra (smallest row = 1), and for by_overall/None that the "
@@ -27,17 +30,28 @@ EXPLANATION = ("Theorems C18_* prove for ALL data rows that the model's frame ha
                "calls the real showbias, decodes index/columns, sends data + observed frame to the Lean driver (model table "
                "compared: DISAGREE; labelsOK/entryOK/normOK/minRowOK/ciOrderedOK evaluated on the observed frame: PROPFAIL), "
                "recomputes every entry independently with numpy from the rows carrying the observed label, and recomputes the "
-               "interval from the recorded bootstrap samples normalised like the reported value.")
+               "interval from the recorded bootstrap samples normalised like the reported value. Kind 'script' (theorems "
+               "C18_script_*): the recorded RNG answers are replayed through the Lean model showbiasScript (op showbiasscript), started "
+               "from the tie order the implementation's GroupScores actually holds (checked admissible: spec.held; immaterial by "
+               "C12_tie_order_irrelevant), scipy's ppf / cdf recorded and completed in a second pass; request trace, replicate array, "
+               "values and interval frames compared (DISAGREE), and labels / shape / normalised entries / ordering / same-quantity "
+               "(C13 formula on the implementation's own replicates around the reported value) / NaN pattern evaluated on the "
+               "implementation's frames (PROPFAIL).")
 TRUSTED_BASE = ["Lean 4.33 kernel", "axioms propext/Classical.choice/Quot.sound only",
                 "hand-written model SA/Model/Showbias.lean tied to /repo by this correspondence run",
                 "string <-> code bijection per group column (rank among the sorted distinct values; checked per case)",
                 "scipy.stats.norm.ppf/cdf and np.quantile(linear) inside the harness's own interval formula (C13 ties "
-                "utils.bootstrap_ci to the same formula)", "pandas indexing; harness and driver parsing; tolerance 1e-12 / 1e-9"]
+                "utils.bootstrap_ci to the same formula)", "pandas indexing; harness and driver parsing; tolerance 1e-12 / 1e-9",
+                "kind 'script': harness/rng_script.py (ScriptedRNG patches np.random.binomial/poisson/choice), SA/Model/Rng.lean, "
+                "SA/Model/Group.lean, SA/Model/ShowbiasScript.lean; scipy.stats.norm.ppf/cdf and x ** 1.5 as recorded oracles"]
 ASSUMPTIONS = ["string group values without NUL characters (numpy/pandas truncate at NUL: reported separately)",
                "finite scores and thresholds (+-inf thresholds included)", "the *_ci methods are not metrics",
                "by_min + bootstrap interval-vs-value clauses are a known finding (signature showbias/by_min/bootstrap/...)",
                "BCa ordering is evaluated only away from the pole |a (z0 + z_alpha)| < 1; BCa same-quantity comparisons within "
-               "1e-6 of the pole are skipped"]
+               "1e-6 of the pole are skipped",
+               "kind 'script': score_analysis draws randomness only through np.random.binomial/poisson/choice; by_min is compared "
+               "with the model AS CODED (minimum over the bootstrap axis); its corner 'NaN value with finite replicates under "
+               "bc/bca' is outside the model and skipped"]
 
 RATE = ["tpr", "fnr", "tnr", "fpr", "ppv", "npv", "fdr", "for_", "topr", "tonr", "accuracy", "error_rate"]
 ALIAS = {"tar": "tpr", "frr": "fnr", "trr": "tnr", "far": "fpr", "acceptance_rate": "topr",
@@ -104,7 +118,52 @@ def _gen_query(rng, thr_pool):
             "enum_cls": rng.random() < 0.2, "norm": norm, "boot": boot}
 
 
+SCRIPT_ADV = ["zeros", "zeros+lo", "zeros+hi", "lo", "hi", "lo1", "hi1", "ones", "first", "last", "zeros+first",
+              "zeros+last", "hi1+lo", "lo1+hi"]
+
+
+def _gen_script(rng):
+    """one showbias(..., bootstrap_ci=True) call with a built-in sampler under the scripted RNG (kind `script`)"""
+    ncols = rng.choice([1, 1, 2])
+    pools = [rng.sample(["a", "b", "c", "a_b", "", "é", "10", "2"], rng.randint(1, 3)) for _ in range(ncols)]
+    ng = rng.choice([1, 2, 2, 3, 3, 4])
+    keys = set()
+    for _ in range(40):
+        keys.add(tuple(rng.choice(p_) for p_ in pools))
+        if len(keys) >= ng:
+            break
+    keys = sorted(keys, key=lambda k: rng.random())
+    grid = rng.choice([4, 8])
+    rows = []
+    for k in keys:
+        whole = rng.random() < 0.15  # whole group in one class
+        for _ in range(rng.choice([1, 2, 2, 3, 4, 5])):
+            rows.append([list(k), rng.choice([0, 0]) if whole else rng.choice([0, 1]), rng.randint(0, grid) / grid])
+    rng.shuffle(rows)
+    big = rng.random() < 0.06  # both classes >= 100: "dynamic" resolves to single-pass
+    if big:
+        for _ in range(200):
+            rows.append([list(rng.choice(keys)), len(rows) % 2, rng.randint(0, grid) / grid])
+    metric = rng.choice(RATE + RATE + list(ALIAS) + COUNT)
+    nt = rng.choice([1, 1, 2, 3])
+    pool = [j / grid for j in range(0, grid + 1)] + [rng.random(), -0.5, 1.5]
+    ts = [rng.choice(pool) for _ in range(nt)]
+    if rng.random() < 0.05:
+        ts[rng.randrange(nt)] = rng.choice(["inf", "-inf"])
+    sc, ec = rng.choice(CFGS)
+    sampler = rng.choice(["replacement", "replacement", "single_pass", "dynamic"])
+    return {"kind": "script", "gcols": ["g%d" % j for j in range(ncols)], "lcol": "label", "scol": "score",
+            "as_list": ncols > 1 or rng.random() < 0.4, "rows": rows, "pos_label": rng.choice([1, 1, 0]),
+            "metric": metric, "ts": ts, "sc": sc, "ec": ec, "norm": rng.choice([None, None, "by_overall", "by_overall", "by_min"]),
+            "boot": {"method": rng.choice(["quantile", "bc", "bca"]), "sampler": sampler,
+                     "strat": rng.choice([None, "by_label", "by_group"]), "nb": rng.randint(3, 8),
+                     "alpha": rng.choice([0.05, 0.1, 0.32, 0.5])},
+            "script": {"seed": rng.randint(0, 2**31 - 1), "mode": rng.choice([None] * 10 + SCRIPT_ADV)}}
+
+
 def gen_one(rng, i, tier):
+    if i % 12 == 5:  # chosen by index: the other cases are generated exactly as before
+        return _gen_script(rng)
     if rng.random() < 0.06:
         return {"kind": "invalid", "which": rng.choice(["no_group", "no_group_list", "no_label", "no_score", "not_frame",
                                                          "bad_normalize", "bad_normalize_boot", "bad_group_type"])}
@@ -154,6 +213,8 @@ def gen_one(rng, i, tier):
 
 
 def nontrivial(inp):
+    if inp.get("kind") == "script":
+        return len({tuple(r[0]) for r in inp["rows"]}) >= 2 or inp["norm"] is not None
     if inp.get("kind") != "frame":
         return True
     keys = {tuple(r[0]) for r in inp["rows"]}
@@ -377,9 +438,265 @@ def _build_invalid(inp):
     return Case(ID, inp, lines, judge, ("invalid", w), 0, pre)
 
 
+def _erat_list(xs):
+    return "[" + ",".join(q(x) for x in xs if not (isinstance(x, float) and math.isnan(x))) + "]"
+
+
+def _tofloat(fr_):
+    try:
+        return float(fr_)
+    except OverflowError:
+        return math.inf if fr_ > 0 else -math.inf
+
+
+def _build_script(inp):
+    """kind `script`: the real showbias(..., bootstrap_ci=True) with a built-in sampler under ScriptedRNG; the recorded
+    answers are replayed through the Lean model `showbiasScript` (op `showbiasscript`), scipy's ppf / cdf are recorded and
+    completed in a second pass (two-pass oracle protocol).  PROPFAIL: a C18 clause fails on the implementation's own
+    frames; DISAGREE: only model and implementation differ."""
+    import pandas as pd
+    import scipy.stats
+    import rng_script
+    from rng_script import ScriptedRNG, adversarial
+    from score_analysis import BootstrapConfig, GroupScores, Scores, showbias
+
+    inp = dict(inp)
+    gcols, lcol, scol = list(inp["gcols"]), inp["lcol"], inp["scol"]
+    rows = inp["rows"]
+    nk, n = len(gcols), len(rows)
+    keys = [tuple(r[0]) for r in rows]
+    labels = [r[1] for r in rows]
+    scores = [float(_num(r[2])) for r in rows]
+    pos_label = inp["pos_label"]
+    metric, sc, ec, norm, boot, sc_ = inp["metric"], inp["sc"], inp["ec"], inp["norm"], inp["boot"], inp["script"]
+    ts = [float(_num(t)) for t in inp["ts"]]
+    nt, nbs, bm, alpha = len(ts), boot["nb"], boot["method"], boot["alpha"]
+    codemaps = []
+    for j in range(nk):
+        vals = sorted({k[j] for k in keys})
+        codemaps.append({v: c for c, v in enumerate(vals)})
+    UNKNOWN = 10**6
+    cols = {c: [k[j] for k in keys] for j, c in enumerate(gcols)}
+    cols[lcol] = labels
+    cols[scol] = scores
+    df = pd.DataFrame(cols)
+    distinct = sorted(set(keys))
+    ispos = [lab == pos_label for lab in labels]
+    cfgb = BootstrapConfig(sampling_method=boot["sampler"], nb_samples=nbs, bootstrap_method=bm,
+                           stratified_sampling=boot["strat"])
+    kw = dict(group_columns=gcols if inp["as_list"] else gcols[0], label_column=lcol, score_column=scol, metric=metric,
+              threshold=list(ts), normalize=norm, bootstrap_ci=True, bootstrap_config=cfgb, alpha=alpha, pos_label=pos_label,
+              score_class=sc, equal_class=ec)
+    desc = (f"ScriptedRNG(seed={sc_['seed']}, policy={sc_['mode']!r}): showbias(rows={rows if n <= 24 else str(rows[:24]) + '...'}, "
+            f"metric={metric!r}, threshold={ts}, normalize={norm!r}, cfg=({sc},{ec}), pos_label={pos_label}, bootstrap_ci=True, "
+            f"alpha={alpha}, BootstrapConfig(nb_samples={nbs}, bootstrap_method={bm!r}, sampling_method={boot['sampler']!r}, "
+            f"stratified_sampling={boot['strat']!r}))")
+    known = norm == "by_min"
+    sig = f"showbias/scripted/{norm or 'none'}/boot-{bm}"
+    # the interval-vs-value clauses under by_min belong to the known finding (minimum over the bootstrap axis)
+    ksig = "showbias/by_min/bootstrap/scripted" if known else sig
+    tags = ("scripted", f"norm={norm}", f"boot={boot['sampler']}/{bm}", f"strat={boot['strat']}",
+            "script=" + ("adversarial" if sc_["mode"] else "realistic"), f"groups={len(distinct)}")
+    pre = []
+    gstate = np.random.get_state()[1].copy()
+    with ScriptedRNG(seed=sc_["seed"], policy=adversarial(sc_["mode"]) if sc_["mode"] else None) as rr, \
+            common.Recorder(scipy.stats.norm, "ppf") as rp, common.Recorder(scipy.stats.norm, "cdf") as rc, \
+            common.Recorder(Scores, "bootstrap_metric") as rm, common.Recorder(GroupScores, "bootstrap_sample") as rs, \
+            common.Recorder(GroupScores, "from_labels") as rf:
+        res = common.call(showbias, df, **kw)
+    if not (np.random.get_state()[1] == gstate).all():
+        pre.append(Issue("ERR", "script", f"{desc}: the global RandomState was used (a primitive that is not scripted)", "script"))
+    trace = rr.trace
+    bad = [e for e in trace if e["raised"] is None and not rng_script.in_range(e, e["resp"])]
+    if bad:
+        pre.append(Issue("ERR", "script", f"harness produced an out-of-support answer: {bad[0]}", "script"))
+    inp["_evals"] = 1 + len(trace)
+    if res[0] == "exc":
+        pre.append(Issue("PROPFAIL", "raises", f"{desc} raised {res[1]}: {res[2]} (requests so far: "
+                         f"{rng_script.brief(trace)[:300]})", sig + "/raises"))
+        return Case(ID, inp, [], lambda outs: [], tags + ("raised",), 0, pre)
+    r = res[1]
+    fr_ = {"values": r.values, "lower": r.lower, "upper": r.upper}
+    if any(not isinstance(f, pd.DataFrame) for f in fr_.values()):
+        pre.append(Issue("PROPFAIL", "ci-missing", f"{desc}: values / lower / upper are not all frames", sig + "/ci-missing"))
+        return Case(ID, inp, [], lambda outs: [], tags, 0, pre)
+    G = len(r.values.index)
+    shapes = {k_: f.shape for k_, f in fr_.items()}
+    if any(sh != (G, nt) for sh in shapes.values()) or G != len(distinct):
+        pre.append(Issue("PROPFAIL", "shape", f"{desc}: frames have shapes {shapes}; the data has {len(distinct)} groups and "
+                         f"{nt} thresholds", sig + "/shape"))
+        return Case(ID, inp, [], lambda outs: [], tags, 0, pre)
+    for nm in ("lower", "upper"):
+        f = fr_[nm]
+        if not (f.index.equals(r.values.index) and list(f.columns) == list(r.values.columns)):
+            pre.append(Issue("PROPFAIL", "ci-labels", f"{desc}: {nm} is labelled differently from values", sig + "/ci-labels"))
+    if r.alpha != alpha:
+        pre.append(Issue("PROPFAIL", "alpha", f"{desc}: alpha {r.alpha}", sig + "/alpha"))
+    obs_labels = [tuple(lab) if isinstance(lab, tuple) else (lab,) for lab in list(r.values.index)]
+    if any(len(t_) != nk for t_ in obs_labels):
+        pre.append(Issue("PROPFAIL", "labels", f"{desc}: row labels {obs_labels} are not {nk}-tuples", sig + "/labels/arity"))
+        return Case(ID, inp, [], lambda outs: [], tags, 0, pre)
+    try:
+        obs_cols = [float(c) for c in r.values.columns]
+    except (TypeError, ValueError):
+        pre.append(Issue("PROPFAIL", "columns", f"{desc}: columns {list(r.values.columns)}", sig + "/labels/columns"))
+        return Case(ID, inp, [], lambda outs: [], tags, 0, pre)
+    V = np.asarray(r.values.values, dtype=float).reshape(G, nt)
+    lo = np.asarray(r.lower.values, dtype=float).reshape(G, nt)
+    hi = np.asarray(r.upper.values, dtype=float).reshape(G, nt)
+    if len(rs.calls) != nbs:
+        pre.append(Issue("PROPFAIL", "ci-samples", f"{desc}: {len(rs.calls)} bootstrap samples drawn for nb_samples={nbs}",
+                         sig + "/ci-samples"))
+    hasrep, orep = 0, []
+    if len(rm.calls) == 1:
+        m_ = np.asarray(rm.calls[0][2], dtype=float)
+        if m_.shape == (nbs, G, nt) and not np.isinf(m_).any():
+            hasrep, orep = 1, [float(v) for v in m_.reshape(-1)]
+    tables = {"ppf_in": [], "ppf_out": [], "cdf_in": [], "cdf_out": [], "p15_in": [], "p15_out": []}
+    for calls, kind_ in ((rp.calls, "ppf"), (rc.calls, "cdf")):
+        for a_, k_, r_ in calls:
+            if not a_:
+                continue
+            xi, xo = np.asarray(a_[0], dtype=float).reshape(-1), np.asarray(r_, dtype=float).reshape(-1)
+            if len(xi) != len(xo):
+                continue
+            for u_, v_ in zip(xi, xo):
+                if not math.isnan(u_) and not math.isnan(v_) and float(u_) not in tables[kind_ + "_in"]:
+                    tables[kind_ + "_in"].append(float(u_)); tables[kind_ + "_out"].append(float(v_))
+    oidx = [codemaps[j].get(v, UNKNOWN + j) for t_ in obs_labels for j, v in enumerate(t_)]
+    # the arrays the implementation's score_object holds: np.argsort is not stable, so inside a block of tied scores the
+    # labels may stand in any order; under one script the labels a sample carries depend on that order, so the model
+    # samples from the implementation's own (admissible, checked by the driver: spec.held) order
+    held_kw = dict(hasheld=0)
+    if len(rf.calls) == 1 and isinstance(rf.calls[0][2], GroupScores):
+        ob = rf.calls[0][2]
+
+        def gcode(v):
+            # a list of group columns: the id is the position among the sorted distinct keys; one column given by
+            # name: the raw value, coded by its rank
+            if isinstance(v, (int, np.integer)):
+                return int(v)
+            return codemaps[0].get(v.item() if hasattr(v, "item") else v, UNKNOWN) if nk == 1 else UNKNOWN
+
+        try:
+            hp, hn = [float(x) for x in ob.pos], [float(x) for x in ob.neg]
+            hpg, hng = [gcode(v) for v in ob.pos_groups], [gcode(v) for v in ob.neg_groups]
+            if len(hp) == len(hpg) and len(hn) == len(hng):
+                held_kw = dict(hasheld=1, hpos=common.ql(hp), hpg=common.il(hpg), hneg=common.ql(hn), hng=common.il(hng))
+        except (TypeError, ValueError):
+            pass
+    script_kw = rng_script.encode_script(trace)
+    script_kw.pop("oh")
+    req_kw = rng_script.encode_requests(trace, "q")
+    EPS = Fraction(1, 10**9)
+
+    def mkline():
+        return line("showbiasscript", nk=nk, keys=common.il([codemaps[j][k[j]] for k in keys for j in range(nk)]),
+                    pos=common.il([1 if b else 0 for b in ispos]), scores=common.ql(scores), sc=sc, ec=ec, metric=metric,
+                    ts=common.ql(ts), norm=norm or "none", eps=q(EPS), alpha=q(alpha), bm=bm, method=boot["sampler"],
+                    strat=boot["strat"] or "none", nbs=nbs, **script_kw, **req_kw,
+                    **{k_: _erat_list(v_) for k_, v_ in tables.items()}, og=G, oidx=common.il(oidx), ocols=common.ql(obs_cols),
+                    ovals="[" + ",".join(_orat(x) for x in V.reshape(-1)) + "]",
+                    lower="[" + ",".join(_orat(x) for x in lo.reshape(-1)) + "]",
+                    upper="[" + ",".join(_orat(x) for x in hi.reshape(-1)) + "]", **held_kw, hasrep=hasrep,
+                    orep="[" + ",".join(_orat(x) for x in orep) + "]")
+
+    case = Case(ID, inp, [mkline()], None, tags, 0, pre)
+
+    def judge(outs):
+        o = outs[0]
+        if "ERR" in o:
+            return [Issue("ERR", "driver", o["ERR"], "driver-error")]
+        iss = []
+        if "miss" not in o:  # the model rejects the normalisation (cannot happen for generated cases)
+            return [Issue("DISAGREE", "raises", f"{desc} returned but the model raises {o.get('mres')}", sig + "/model-raises")]
+        misses = common.plist(o["miss"])
+        rounds = 0
+        while misses and rounds < 5:
+            rounds += 1
+            for m_ in misses:
+                kind_, arg = m_.split(":", 1)
+                x = math.inf if arg == "inf" else (-math.inf if arg == "-inf" else _tofloat(Fraction(arg)))
+                if kind_ == "p15":
+                    tables["p15_in"].append(x); tables["p15_out"].append(float(np.float64(x) ** 1.5))
+                else:  # the real scipy functions ARE the oracle
+                    tables[kind_ + "_in"].append(x); tables[kind_ + "_out"].append(float(getattr(scipy.stats.norm, kind_)(x)))
+            o = common.run_driver([mkline()])[0]
+            if "ERR" in o:
+                return [Issue("ERR", "driver", o["ERR"], "driver-error")]
+            misses = common.plist(o["miss"])
+        if misses:
+            return [Issue("ORACLE-MISS", "oracle", f"{desc}: model query not answered: {misses[:4]}", sig + "/oracle-miss")]
+        pole = common.pfrac(o["pole"])
+        near_pole = pole is not None and pole < Fraction(1, 10**6)
+        frames = f"values {V.tolist()} lower {lo.tolist()} upper {hi.tolist()}"
+        # ---- the C18 clauses on the implementation's own frames
+        if o["spec.held"] == "0":
+            iss.append(Issue("PROPFAIL", "attached", f"{desc}: the arrays held by the GroupScores object showbias built are not a "
+                             f"permutation of the data's (score, group) pairs sorted by score: {held_kw}", sig + "/attached"))
+        if o["spec.labels"] != "1":
+            iss.append(Issue("PROPFAIL", "labels", f"{desc}: row labels {obs_labels} columns {obs_cols}; the sorted distinct group "
+                             f"value combinations are {distinct}", sig + "/labels"))
+        if o["spec.shape"] != "1":
+            iss.append(Issue("PROPFAIL", "shape", f"{desc}: {frames}: not one row per group and one column per threshold in all "
+                             f"three frames", sig + "/shape"))
+        if o["spec.norm"] != "1":
+            iss.append(Issue("PROPFAIL", "norm" if norm else "entry", f"{desc}: the value frame {V.tolist()} is not the "
+                             f"{'normalised ' if norm else ''}groupwise metric of the data (model: {o.get('mvals')})",
+                             sig + ("/norm" if norm else "/entry")))
+        if o["spec.samequantity"] == "0":
+            if near_pole:
+                case.skipped += 1
+            else:
+                iss.append(Issue("PROPFAIL", "ci-same-quantity", f"{desc}: {frames}: the interval frames are not the {bm} interval "
+                                 f"(alpha={alpha}) of the replicates Scores.bootstrap_metric returned, normalised like the reported "
+                                 f"value ({norm}), around the reported value; replicates {orep[:12]}...", ksig + "/ci-same-quantity"))
+        if o["spec.nan"] == "0":
+            iss.append(Issue("PROPFAIL", "ci-nan", f"{desc}: {frames}: a limit is NaN although the component has a finite "
+                             f"(normalised) replicate, or finite although it has none, or only one of lower / upper is NaN; "
+                             f"replicates {orep[:12]}...", ksig + "/ci-nan"))
+        if o["spec.ciordered"] != "1":
+            if bm == "bca" and (near_pole or o["spec.ci"] == "1" or o["spec.samequantity"] == "1"):
+                case.skipped += 1  # BCa beyond its pole: the formula itself is unordered there (C13), not claimed
+            else:
+                iss.append(Issue("PROPFAIL", "ci-ordered", f"{desc}: lower > upper somewhere: {frames}", ksig + "/ci-ordered"))
+        # ---- model vs implementation
+        if o["tracediff"] != "-1":
+            mt = rng_script.decode_requests(o, "m") if "mk" in o else []
+            iss.append(Issue("DISAGREE", "requests", f"{desc}: RNG request #{o['tracediff']} differs; implementation ({len(trace)} "
+                             f"requests): {rng_script.brief(trace)[:400]}; model ({o['nreq']} requests): "
+                             f"{[(e['prim'], e['n'], e['size'], e['replace'], float(e['p'])) for e in mt][:12]}", sig + "/requests"))
+            return iss
+        if o["spec.requests"] != "1":
+            iss.append(Issue("DISAGREE", "requests", f"{desc}: the model's run on the recorded answers is not ok / leaves answers "
+                             f"unread (ok={o['mok']}, unread={o['left']}, model result {o['mres']})", sig + "/requests-ok"))
+            return iss
+        if o["mres"] != "ok":
+            iss.append(Issue("DISAGREE", "raises", f"{desc} returned but the model raises {o['mres']}", sig + "/model-raises"))
+            return iss
+        if o["spec.values"] != "1":
+            iss.append(Issue("DISAGREE", "values", f"{desc}: values {V.tolist()}; model {o.get('mvals')}", sig + "/model-values"))
+        if o["spec.replicates"] != "1":
+            iss.append(Issue("DISAGREE", "replicates", f"{desc}: the replicate array of Scores.bootstrap_metric differs from the group "
+                             f"metric of the model's samples: observed {orep[:12]}..., model {o.get('mrep', '')[:200]}",
+                             sig + "/model-replicates"))
+        if o["spec.ci"] != "1":
+            if near_pole or o.get("corner") == "1":
+                case.skipped += 1
+            else:
+                iss.append(Issue("DISAGREE", "ci", f"{desc}: lower {lo.tolist()} upper {hi.tolist()}; the model on the recorded RNG "
+                                 f"answers gives lower {o.get('mlo')} upper {o.get('mhi')}", sig + "/model-ci"))
+        return iss
+
+    case.judge = judge
+    return case
+
+
 def build(inp) -> Case:
     if inp.get("kind") == "invalid":
         return _build_invalid(inp)
+    if inp.get("kind") == "script":
+        return _build_script(inp)
     import pandas as pd
     from score_analysis import BootstrapConfig, GroupScores, showbias
     from score_analysis.scores import BinaryLabel
@@ -766,7 +1083,27 @@ def build(inp) -> Case:
 # --------------------------------------------------------------------------------------
 # shrinking
 # --------------------------------------------------------------------------------------
+def _shrink_script(inp):
+    rows = inp["rows"]
+    if len(rows) > 1:
+        for i in range(len(rows)):
+            c = dict(inp); c["rows"] = rows[:i] + rows[i + 1:]; yield c
+    if len(inp["ts"]) > 1:
+        for j in range(len(inp["ts"])):
+            c = dict(inp); c["ts"] = inp["ts"][:j] + inp["ts"][j + 1:]; yield c
+    b = inp["boot"]
+    if b["nb"] > 3:
+        c = dict(inp); c["boot"] = dict(b, nb=b["nb"] - 1); yield c
+    if b["method"] != "quantile":
+        c = dict(inp); c["boot"] = dict(b, method="quantile"); yield c
+    if inp["script"]["mode"]:
+        c = dict(inp); c["script"] = dict(inp["script"], mode=None); yield c
+
+
 def shrink_candidates(inp):
+    if inp.get("kind") == "script":
+        yield from _shrink_script(inp)
+        return
     if inp.get("kind") != "frame":
         return
     qs = inp["queries"]
